@@ -148,6 +148,12 @@ def k2_test_names(i1: List[int], i2: List[int], i3: List[int]) -> bool:
     pre: _idx_ok(i3, P['n'], FILE_ALPHABET, 1)
     post: __return__
     """
+    return test_names_body(i1, i2, i3)
+
+
+def test_names_body(i1, i2, i3):
+    # (no contract on this function: CrossHair assumes the post-conditions of contracted callees, so a harness
+    # body shared between obligations must be a plain function)
     n1, n2, n3 = _text(i1, FILE_ALPHABET), _text(i2, FILE_ALPHABET), _text(i3, FILE_ALPHABET)
     g = _BASE
     g.test_names = set(_BASE_NAMES)
@@ -249,6 +255,46 @@ TREE = ['/cwd/out.txt', '/cwd/ref/other/keep.txt', '/cwd/ref/x/STDOUT', '/cwd/re
         '/cwd/ref/x/sub/deep.txt', '/cwd/ref/xy/keep.txt', '/cwd/test_xy.py']
 
 
+OUT_FILES = ['/cwd/a/out.txt', '/cwd/b/out.txt', '/cwd/stdout', '/cwd/plain.csv', '/cwd/b/OUT.txt']
+
+
+def k4_copy_refs(present: List[bool], iterations: int) -> bool:
+    """
+    pre: len(present) == len(OUT_FILES) and 1 <= iterations <= 3
+    post: __return__
+    """
+    import copy
+    import io
+    import contextlib
+    files = {p_: 'content of ' + p_ for p_, on in zip(OUT_FILES, present) if on}
+    fs = fakefs.FakeFS(files, dirs=['/cwd', '/cwd/a', '/cwd/b'])
+    with fakefs.patched(fs, gentest):
+        g = copy.copy(_BASE)
+        g.test_names = set(_BASE_NAMES)
+        g.iterations = iterations
+        g.ref_map = {}
+        g.reference_files = {run: sorted(files) for run in range(1, iterations + 1)}
+        with contextlib.redirect_stdout(io.StringIO()):
+            g.create_or_empty_ref_dir()
+            for run in range(1, iterations + 1):
+                g.copy_reference_files(run)
+            g.remove_extra_reference_files()
+    # every checked output has its own reference copy, which still exists once generation has tidied up,
+    # lies directly under ref/<name>/, holds the output's content, and is the file the test will be pointed at
+    seen = set()
+    for p_ in files:
+        ref = g.ref_map.get(p_, g.ref_path(p_))
+        if ref in seen or not fs.exists(ref) or fs.files[ref] != files[p_]:
+            return False
+        if not ref.startswith(g.refdir + '/') or '/' in ref[len(g.refdir) + 1:]:
+            return False
+        if ref.rsplit('/', 1)[1].lower() in ('stdout', 'stderr'):
+            return False            # would be taken for (and overwrite) a stream's reference
+        seen.add(ref)
+    # and the outputs themselves are untouched
+    return all(fs.files.get(p_) == c for p_, c in files.items())
+
+
 def k3_deleters_guard() -> bool:
     """
     post: __return__
@@ -302,6 +348,12 @@ def _obs():
                           'symbolic presence of %d paths (outputs, sibling ref dirs, nested dirs, look-alike names); '
                           'iterations 1..3; old script present=%s, reference dir present=%s' % (len(TREE), sc, rd),
                           param={'script': sc, 'refdir': rd}, timeout=300, stubs=['fakefs']))
+    obs.append(Ob('K4', 'k4_copy_refs', 'copy_reference_files over 1..3 runs + tidy-up: every checked output ends with '
+                  'its own reference copy directly under ref/<name>/ that exists, holds its content and is what the '
+                  'generated test is pointed at - also when base names collide (same name in two directories, names '
+                  'differing in case, a file called stdout); the outputs are untouched',
+                  'symbolic presence of %d output paths; iterations 1..3' % len(OUT_FILES), timeout=400,
+                  stubs=['fakefs']))
     obs.append(Ob('K3', 'k3_deleters_guard', 'the only functions in gentest.py that call os/shutil deleting or moving '
                   'functions are the two that K3 drives', 'AST of the current gentest.py', timeout=60, twin=False))
     return obs
